@@ -62,14 +62,86 @@ fn lazy_boundary(ctx: &mut Ctx) {
     }
 }
 
+fn boundary_case(ctx: &mut Ctx, cfg: &Cfg, data: &[u8], at: usize, flush: u8, small: usize) {
+    use miniz_oxide::deflate::core::{compress, TDEFLFlush, TDEFLStatus};
+    let id = ctx.id();
+    ctx.eval(fnv(data) ^ (at as u64) ^ ((flush as u64) << 40));
+    ctx.count("block_boundary_cases");
+    let replay = format!("BOUNDARY {} at={} flush={} small={} in={}", cfg.describe(), at, flush, small, hex(data));
+    let upto = at.min(data.len());
+    let input: &[u8] = if flush == 4 { &data[..upto] } else { data };
+    let mut c = cfg.make();
+    let mut z: Vec<u8> = vec![];
+    let mut ipos = 0usize;
+    let mut bad = None;
+    // first call: the chunk ending at the probed position, small output
+    let r = std::panic::catch_unwind(std::panic::AssertUnwindSafe(|| {
+        let mut o = vec![0u8; small];
+        let (st, i, w) = compress(&mut c, &input[..upto], &mut o, flush_of(flush));
+        (st, i, w, o)
+    }));
+    let mut done = false;
+    match r { Ok((st, i, w, o)) => { z.extend_from_slice(&o[..w]); ipos += i; if st == TDEFLStatus::Done { done = true; } else if st != TDEFLStatus::Okay { bad = Some(format!("first call {:?}", st)); } }
+              Err(_) => { bad = Some("panic in the boundary call".into()); } }
+    // drain and finish with roomy buffers
+    if bad.is_none() && !done {
+        for _ in 0..1000 {
+            let mut o = vec![0u8; 100_000];
+            let r = std::panic::catch_unwind(std::panic::AssertUnwindSafe(|| compress(&mut c, &input[ipos..], &mut o, TDEFLFlush::Finish)));
+            match r { Ok((st, i, w)) => { z.extend_from_slice(&o[..w]); ipos += i; if st == TDEFLStatus::Done { done = true; break; } if st != TDEFLStatus::Okay { bad = Some(format!("finish loop {:?}", st)); break; } }
+                      Err(_) => { bad = Some("panic while finishing".into()); break; } }
+        }
+    }
+    if let Some(m) = bad { ctx.violation(id, "panic", format!("{} [{}] at={} flush={} out={}", m, cfg.describe(), at, flush, small), replay); return; }
+    if !done { ctx.violation(id, "progress", format!("not finished [{}] at={}", cfg.describe(), at), replay); return; }
+    ctx.line(&format!("ENC id={} rp=BOUNDARY;at={};flush={};small={} checks=rt modes=- {} in={} comp={}", id, at, flush, small, cfg.describe(), hex(input), hex(&z)));
+}
+
+/// Input chunks that end exactly where the compressor closes a block on its own, offered together
+/// with a flush request and an output buffer too small for that block. The positions are probed
+/// from the hook trace of a reference run (payload bytes of every `flush_block`), so the family
+/// follows whatever rule the engines use for cutting blocks.
+fn block_boundary(ctx: &mut Ctx) {
+    use miniz_oxide::deflate::core::{compress, TDEFLFlush, TDEFLStatus};
+    let n = 40 * ctx.scale;
+    for k in 0..n {
+        let kind = if k % 2 == 0 { "random" } else { *ctx.rng.pick(plain::KINDS) };
+        let len = ctx.rng.range(40000, 140000);
+        let data = plain::gen(&mut ctx.rng, kind, len);
+        let cfg = if k % 3 == 0 { Cfg { level: ctx.rng.range(0, 10) as u8, strategy: 0, zlib: k % 2 == 0, wb: 15 } } else { Cfg::random(&mut ctx.rng) };
+        // reference run: everything at once, no flush, roomy output
+        let mut c = cfg.make();
+        let mut out = vec![0u8; data.len() * 2 + 4000];
+        let _ = compress(&mut c, &data, &mut out, TDEFLFlush::None);
+        let mut cuts: Vec<usize> = vec![];
+        let mut pos = 0usize;
+        for ev in c.verif_take_trace() { if ev[0] == 1 { pos += ev[2] as usize; if pos > 0 && pos < data.len() { cuts.push(pos); } } }
+        ctx.count_n("probed_block_cuts", cuts.len() as u64);
+        cuts.truncate(3);
+        for cut in cuts {
+            for delta in [0isize, -1, 1] {
+                let at = (cut as isize + delta).max(1) as usize;
+                if at >= data.len() { continue; }
+                let flush = *ctx.rng.pick(&[1u8, 2, 3, 4]);
+                let small = *ctx.rng.pick(&[1usize, 7, 100, 1000, 20000]);
+                boundary_case(ctx, &cfg, &data, at, flush, small);
+            }
+        }
+    }
+}
+
 pub fn run(ctx: &mut Ctx) {
     if let Some(lines) = ctx.replay_lines.clone() {
-        for l in lines { if let Some(rest) = l.strip_prefix("SCHED ") { let kv = crate::kv(rest);
+        for l in lines { if let Some(rest) = l.strip_prefix("BOUNDARY ") { let kv = crate::kv(rest);
+            let cfg = Cfg { level: kv["level"].parse().unwrap(), strategy: kv["strategy"].parse().unwrap(), zlib: kv["fmt"] == "1", wb: kv["wb"].parse().unwrap() };
+            boundary_case(ctx, &cfg, &crate::tx::unhex(&kv["in"]), kv["at"].parse().unwrap(), kv["flush"].parse().unwrap(), kv["small"].parse().unwrap()); }
+          if let Some(rest) = l.strip_prefix("SCHED ") { let kv = crate::kv(rest);
             let cfg = Cfg { level: kv["level"].parse().unwrap(), strategy: kv["strategy"].parse().unwrap(), zlib: kv["fmt"] == "1", wb: kv["wb"].parse().unwrap() };
             case(ctx, &cfg, &crate::tx::unhex(&kv["in"]), "replay", if kv["sink"] == "1" { Sink::Callback } else { Sink::Buf }, kv["tiny"] == "1", kv["seed"].parse().unwrap(), "rt"); } }
         return;
     }
     lazy_boundary(ctx);
+    block_boundary(ctx);
     let n = 260 * ctx.scale;
     for i in 0..n {
         let cfg = if i < 55 { Cfg { level: (i % 11) as u8, strategy: ((i / 11) % 5) as u8, zlib: i % 2 == 0, wb: 15 } } else { Cfg::random(&mut ctx.rng) };
